@@ -372,7 +372,7 @@ class TriangularLattice(SquareLattice):
                 s_b = self.nn_site(s, d='b')  # top is before bottom in the fermionic order
                 if s_b is not None and s_r is not None:
                     bonds_d.append(Bond(s_b, s_r))
-            self._bonds_d = bonds_d
+            self._bonds_d = tuple(bonds_d)
         else:
             self._sites = (Site(0, 0), Site(0, 1), Site(0, 2))
             self._bonds_h = (Bond(Site(0, 0), Site(0, 1)), Bond(Site(0, 1), Site(0, 2)), Bond(Site(0, 2), Site(0, 3)))
